@@ -5,7 +5,8 @@ the cplex environment of the cell (absent / broken / stand-in present), hash see
 decide element ids). Oracle: structural well-formedness against the dataset model.
 """
 from .. import gen, model
-from ..lib import build_dataset, build_scheme, uses_random, alg_label, jsonable_ranking, canon_ranking
+from ..lib import (build_dataset, build_scheme, uses_random, alg_label, jsonable_ranking, canon_ranking,
+                   canon_rankings, call, Element)
 from ..seed import digest
 from .common import Discard, run_alg, well_formed, dataset_tags, sweep
 
@@ -20,7 +21,7 @@ LEVEL_TEXT = ("seeded search over datasets x schemes x algorithm configurations 
               "sweeps the full pivot tree of randomised configurations on small universes")
 ASSUMPTIONS = ["dataset model (model.normalise) encodes the typing rule of the statement",
                "the CPLEX classes are judged against the stand-in peer, not real CPLEX"]
-EXPECTED_PROBES = ["returned", "refused", "ilp_pulp", "checked_rankings"]
+EXPECTED_PROBES = ["returned", "refused", "ilp_pulp", "checked_rankings", "mutated_in_place"]
 
 
 def gen_case(st, tier, env):
@@ -34,6 +35,13 @@ def gen_case(st, tier, env):
         a = gen.gen_alg(w, env, heavy_ok=n_univ <= 6)
         calls.append({"alg": a, "one": k.choice([True, False, None]), "sched": gen.gen_sched(st.schedule)})
     do_sweep = tier == "thorough" and n_univ <= 5 and k.random() < 0.3
+    # history dimension: the same Dataset object is edited in place between calls (a dataset obtained by removals is
+    # a dataset like any other; whatever an earlier call cached must not leak into the next consensus)
+    if k.random() < 0.3 and len(calls) >= 2:
+        at = w.randrange(1, len(calls))
+        calls.insert(at, {"mutate": w.choice(["remove_elements", "remove_elements", "remove_rate", "remove_empty"]),
+                          "pick": [w.randrange(64) for _ in range(w.randint(1, 2))],
+                          "rate": w.choice([0.3, 0.5, 0.75])})
     return {"dataset": ds, "scheme": scheme, "calls": calls, "sweep": do_sweep}
 
 
@@ -49,6 +57,7 @@ def run_case(case, ctx):
     ctx.event("world", model.canon(mr), case["scheme"]["B"], case["scheme"]["T"], ctx.env)
 
     def judge(out, call_spec, sched_spec):
+        # (mr and tags are rebound by in-place mutations below; judge reads the current bindings)
         ctx.event("call", out.label, call_spec["one"], out.brief(), out.picks)
         ctx.probe(out.kind)
         if out.kind != "returned":
@@ -74,6 +83,23 @@ def run_case(case, ctx):
             pass
 
     for c in case["calls"]:
+        if "mutate" in c:
+            univ = model.universe(mr)
+            if c["mutate"] == "remove_elements" and len(univ) > 1:
+                gone = {univ[i % len(univ)] for i in c["pick"]}
+                if len(gone) < len(univ):
+                    okm, _ = call(ds.remove_elements, {Element(x) for x in gone})
+            elif c["mutate"] == "remove_rate":
+                okm, _ = call(ds.remove_elements_rate_presence_lower_than, c["rate"])
+            else:
+                okm, _ = call(ds.remove_empty_rankings)
+            # the dataset is now whatever its rankings contain (C16 judges the mutators themselves)
+            mr = canon_rankings(ds.rankings)
+            tags = dataset_tags(mr, case["scheme"])
+            tags["after_mutation"] = c["mutate"]
+            ctx.probe("mutated_in_place")
+            ctx.event("mutate", c["mutate"], model.canon(mr))
+            continue
         name = c["alg"]["alg"]
         if name in ("ExactAlgorithmPulp",) or (name in ("ExactAlgorithm", "ParCons") and ctx.env != "present"):
             ctx.probe("ilp_pulp")
